@@ -331,7 +331,7 @@ Section Build.
 End Build.
 
 (* what the caller's mapping looks like after the call: the function works on
-   `dict(arg)`, a copy, so the caller's object is what it was (see Heap.v for the
+   `dict(arg)`, a copy, so the caller's object is what it was (see HeapModel.v for the
    model with shared, mutable objects in which this is a theorem) *)
 
 (* ------------------------------------------------------------------ *)
